@@ -176,7 +176,9 @@ def main():
     for variant in ("asan", "hard"):
         env = {"VERIF_ENGINE_VARIANT": variant}
         if variant == "asan":
-            env.update({"LD_PRELOAD": rt,
+            # PYTHONMALLOC=malloc: every Python allocation (incl. the small ctypes argument buffers, which pymalloc would
+            # carve out of its own arenas) goes through malloc and gets ASan red zones
+            env.update({"LD_PRELOAD": rt, "PYTHONMALLOC": "malloc",
                         "ASAN_OPTIONS": "detect_leaks=0:halt_on_error=0:abort_on_error=0:log_path={wdir}/san:allocator_may_return_null=1:symbolize=1",
                         "UBSAN_OPTIONS": "print_stacktrace=0:halt_on_error=0:log_path={wdir}/san",
                         "ASAN_SYMBOLIZER_PATH": shutil.which("llvm-symbolizer-14") or shutil.which("llvm-symbolizer") or ""})
